@@ -195,6 +195,64 @@ def explore(ctx):
     for i in bad[:3]:
         ctx.broke("correspondence", f"state_on_node: model and implementation differ: {sterms[i][:300]}")
     explore_rules(ctx, 120 if ctx.quick() else 3000)
+    explore_triggers(ctx)
+
+
+def explore_triggers(ctx):
+    """both triggers, on every kind of destination record: a completed pull (real copy_request_done) and an import (real _import_file task)
+    fire the rules when the file newly becomes present --- also over a row that already existed (removed, released, corrupt)"""
+    import pathlib
+    import shutil
+    import time
+
+    from alpenhorn.daemon import auto_import as AI
+    from alpenhorn.daemon import update as U
+    from alpenhorn.io import ioutil
+    from alpenhorn.io.default import DefaultNodeIO
+    from vf.harness import world as w
+
+    base = ctx.tmp() / "triggers"
+    for trigger in ("pull", "import"):
+        for row in (None, ("N", "N"), ("N", "Y"), ("X", "Y"), ("X", "N")):
+            if trigger == "import" and row is not None and (row[0] == "X" or row == ("N", "Y")):
+                continue  # a known copy that is present (even corrupt) is not imported again; a wanted copy that had gone missing comes back as suspect
+            shutil.rmtree(base, ignore_errors=True)
+            w.fresh_db(host="h1")
+            gs, gt, ga = w.mkgroup("gsrc"), w.mkgroup("gtransit"), w.mkgroup("garchive")
+            src = w.mknode(base, "src", gs, stype="F")
+            tr = w.mknode(base, "transit", gt, stype="A")
+            w.mknode(base, "arch", ga, stype="A")
+            w.StorageTransferAction.create(node_from=src, group_to=gt, autosync=False, autoclean=True)
+            w.StorageTransferAction.create(node_from=tr, group_to=ga, autosync=True, autoclean=False)
+            acq = w.mkacq("acq")
+            content = b"payload-16-bytes"
+            f = w.mkfile(acq, "data.dat", content)
+            w.mkcopy(src, f, "Y", "Y", size_b=len(content))
+            if row is not None:
+                w.mkcopy(tr, f, row[0], row[1], size_b=len(content))
+            w.put_on_disk(tr, f, content)
+            queue = w.StepQueue.make()
+            if trigger == "pull":
+                req = w.mkreq(f, src, gt)
+                io = DefaultNodeIO(w.StorageNode.get(id=tr.id), {}, queue)
+                ioutil.copy_request_done(req, io, success=True, md5ok=True, start_time=time.time() - 1)
+            else:
+                un = U.UpdateableNode(queue, w.StorageNode.get(id=tr.id))
+                AI.import_file(un, queue, pathlib.PurePath("acq/data.dat"), True, None)
+                w.drain_with_workers(queue)
+            onward = w.ArchiveFileCopyRequest.select().where(w.ArchiveFileCopyRequest.node_from == tr.id, w.ArchiveFileCopyRequest.group_to == ga.id).count()
+            sc = w.ArchiveFileCopy.get(file=f, node=src)
+            tc = w.ArchiveFileCopy.get_or_none(file=f, node=tr)
+            ctx.count("trigger")
+            ctx.distinct_add(("trigger", trigger, row))
+            rp = {"family": "trigger", "trigger": trigger, "destination_row_before": row}
+            if tc is None or tc.has_file != "Y":
+                ctx.broke("harness", "trigger scenario", f"{trigger} over row {row} did not make the copy present: {tc and (tc.has_file, tc.wants_file)}")
+                continue
+            if onward != 1 or (sc.has_file, sc.wants_file) != ("Y", "N"):
+                ctx.fail("C16:trigger-did-not-fire", f"the file became present on 'transit' by {trigger} (its record there before: {row}): {onward} autosync request(s) transit -> garchive (expected 1), "
+                         f"copy on the autoclean source is {(sc.has_file, sc.wants_file)} (expected released)", rp)
+    shutil.rmtree(base, ignore_errors=True)
 
 
 def explore_rules(ctx, n):
